@@ -1,5 +1,7 @@
-(* Exact model of Eden -> ELYS vesting in x/commitment:
+(* Exact model of vesting in x/commitment (Eden -> ELYS, and one bank-held "liquid" denom vested into itself,
+   uusdc -> uusdc, through MsgVestLiquid under its own governance VestingInfo):
      keeper/msg_server_vest.go            ProcessTokenVesting
+     keeper/msg_server_vest_liquid.go     VestLiquid (+ deposit_liquid_tokens.go DepositLiquidTokensClaimed)
      keeper/msg_server_claim_vesting.go   ClaimVesting
      keeper/msg_server_cancel_vest.go     CancelVest
      keeper/msg_server_vest_now.go        VestNow
@@ -7,21 +9,30 @@
      types/commitments.go                 VestedSoFar, SubClaimed, AddClaimed
    Definitions only; proofs are in Proofs/VestingProofs.v. Integers are math.Int = Z.
    One account at a time would do for most theorems, but governance parameters are global, so the
-   state carries a list of accounts. Ghost fields (prefix g_) are never read by the handlers. *)
+   state carries a list of accounts. Ghost fields (prefix g_) are never read by the handlers.
+   All schedules of an account live in ONE list (Commitments.VestingTokens); an entry carries the denom it
+   pays out in ([v_den]: 0 = uelys, anything else = the liquid denom, the harness uses 1 = uusdc). *)
 From Coq Require Import ZArith List Bool.
 From Elys Require Import Base.Res.
 Import ListNotations.
 Open Scope Z_scope.
 
-Record ventry := mkV { v_total : Z; v_claimed : Z; v_start : Z; v_num : Z }.
+Record ventry := mkV { v_total : Z; v_claimed : Z; v_start : Z; v_num : Z; v_den : Z }.
+
+(* VestingTokens.Denom == ptypes.Elys *)
+Definition is0 (v : ventry) : bool := v_den v =? 0.
 
 Record acct := mkA {
   a_eden : Z;              (* Claimed ueden (claimable Eden) *)
   a_elys : Z;              (* bank balance of uelys *)
-  a_vs   : list ventry;    (* VestingTokens, oldest first *)
+  a_usdc : Z;              (* bank balance of the liquid denom *)
+  a_vs   : list ventry;    (* VestingTokens, oldest first, all denoms *)
   g_in : Z;                (* ghost: Eden put into vesting *)
   g_released : Z;          (* ghost: ELYS released by claims *)
-  g_returned : Z           (* ghost: Eden returned by cancels *)
+  g_returned : Z;          (* ghost: Eden returned by cancels *)
+  g_in1 : Z;               (* ghost: liquid coins put into vesting *)
+  g_released1 : Z;         (* ghost: liquid coins released by claims *)
+  g_usdc0 : Z              (* ghost: the initial wallet balance of the liquid denom *)
 }.
 
 Record params := mkP {
@@ -31,12 +42,21 @@ Record params := mkP {
   p_now : bool             (* EnableVestNow *)
 }.
 
-Record state := mkS { s_p : params; s_accts : list acct }.
+(* the VestingInfo of the liquid denom (BaseDenom = VestingDenom = uusdc); its VestNowFactor is validated but never
+   read (vest-now of a denom without a Claimed bucket cannot succeed) *)
+Record linfo := mkL { l_num : Z; l_max : Z }.
 
-Definition dflt_acct : acct := mkA 0 0 [] 0 0 0.
+Record state := mkS {
+  s_p : params;
+  s_l : option linfo;      (* None: governance has not added the second VestingInfo *)
+  s_mod : Z;               (* commitment module account: custody of the liquid denom *)
+  s_accts : list acct }.
+
+Definition dflt_acct : acct := mkA 0 0 0 [] 0 0 0 0 0 0.
 Definition get_acct (s : state) (i : nat) : acct := nth i (s_accts s) dflt_acct.
 Definition set_acct (s : state) (i : nat) (a : acct) : state :=
-  mkS (s_p s) (upd_nth i a (s_accts s)).
+  mkS (s_p s) (s_l s) (s_mod s) (upd_nth i a (s_accts s)).
+Definition set_mod (s : state) (m : Z) : state := mkS (s_p s) (s_l s) m (s_accts s).
 
 (* error codes (only Ok/Err/Panic is compared with the implementation) *)
 Definition E_amount := 1%nat.
@@ -46,6 +66,8 @@ Definition E_insufficient_vesting := 4%nat.
 Definition E_disabled := 5%nat.
 Definition E_params := 6%nat.
 Definition E_noacct := 7%nat.
+Definition E_denom := 8%nat.
+Definition E_funds := 9%nat.
 Definition P_div0 := 1%nat.
 Definition P_negcoin := 2%nat.
 
@@ -68,9 +90,25 @@ Definition vest (h : Z) (amt : Z) (p : params) (a : acct) : res acct :=
   guard (0 <? amt) E_amount (
   guard (negb (p_max p <=? Z.of_nat (length (a_vs a)))) E_max (
   guard (amt <=? a_eden a) E_claimed (
-  Ok (mkA (a_eden a - amt) (a_elys a)
-          (a_vs a ++ [mkV amt 0 h (p_num p)])
-          (g_in a + amt) (g_released a) (g_returned a))))).
+  Ok (mkA (a_eden a - amt) (a_elys a) (a_usdc a)
+          (a_vs a ++ [mkV amt 0 h (p_num p) 0])
+          (g_in a + amt) (g_released a) (g_returned a) (g_in1 a) (g_released1 a) (g_usdc0 a))))).
+
+(* VestLiquid: DepositLiquidTokensClaimed (bank send wallet -> commitment module, Claimed[denom] += amt) followed by
+   ProcessTokenVesting with the VestingInfo of THAT denom (Claimed[denom] -= amt: the bucket is back where it was).
+   NumMaxVestings of the liquid info is compared with the length of the WHOLE list. The module side of the bank
+   send is in [step_gen]. *)
+Definition vest_liquid (h : Z) (amt : Z) (l : option linfo) (a : acct) : res acct :=
+  guard (0 <? amt) E_amount (
+  guard (amt <=? a_usdc a) E_funds (
+  match l with
+  | None => Err E_denom
+  | Some li =>
+    guard (negb (l_max li <=? Z.of_nat (length (a_vs a)))) E_max (
+    Ok (mkA (a_eden a) (a_elys a) (a_usdc a - amt)
+            (a_vs a ++ [mkV amt 0 h (l_num li) 1])
+            (g_in a) (g_released a) (g_returned a) (g_in1 a + amt) (g_released1 a) (g_usdc0 a)))
+  end)).
 
 (* ClaimVesting, loop body. [clamp] = true is the code after the fix: commit
    (vestedSoFar below ClaimedAmount after a cancel is treated as "nothing new");
@@ -80,44 +118,54 @@ Definition claim_entry (clamp : bool) (h : Z) (v : ventry) : res (Z * ventry) :=
   do vs <- vested_so_far v h;
   if vs <? v_claimed v then
     (if clamp then Ok (0, v) else Panic P_negcoin)
-  else Ok (vs - v_claimed v, mkV (v_total v) vs (v_start v) (v_num v)).
+  else Ok (vs - v_claimed v, mkV (v_total v) vs (v_start v) (v_num v) (v_den v)).
 
-Fixpoint claim_loop (clamp : bool) (h : Z) (vs : list ventry) : res (Z * list ventry) :=
+(* newClaims is an sdk.Coins: every entry adds its new claim under its own denom. Result: (ELYS, liquid, kept entries) *)
+Fixpoint claim_loop (clamp : bool) (h : Z) (vs : list ventry) : res (Z * Z * list ventry) :=
   match vs with
-  | [] => Ok (0, [])
+  | [] => Ok (0, 0, [])
   | v :: r =>
       do '(c, v') <- claim_entry clamp h v;
-      do '(cr, r') <- claim_loop clamp h r;
-      Ok (c + cr, if v_claimed v' =? v_total v' then r' else v' :: r')
+      do '(c0, c1, r') <- claim_loop clamp h r;
+      Ok (if is0 v then c + c0 else c0, if is0 v then c1 else c + c1,
+          if v_claimed v' =? v_total v' then r' else v' :: r')
   end.
 
 Definition claim_gen (clamp : bool) (h : Z) (a : acct) : res acct :=
-  do '(c, vs') <- claim_loop clamp h (a_vs a);
-  (* newClaims.IsAllPositive(): mint + send only when something is due *)
-  Ok (mkA (a_eden a) (a_elys a + c) vs' (g_in a) (g_released a + c) (g_returned a)).
+  do '(c0, c1, vs') <- claim_loop clamp h (a_vs a);
+  (* newClaims.IsAllPositive(): mint (ELYS part) + send only when something is due; the liquid part is paid from
+     the module account: see [step_gen] *)
+  Ok (mkA (a_eden a) (a_elys a + c0) (a_usdc a + c1) vs' (g_in a) (g_released a + c0) (g_returned a)
+          (g_in1 a) (g_released1 a + c1) (g_usdc0 a)).
 
 Definition claim := claim_gen true.
 Definition claim_prefix := claim_gen false.
 
-(* CancelVest: newest entry first. Entries with NumBlocks = 0 or TotalAmount = 0 are skipped. *)
+(* CancelVest: newest entry first, index by index over the FULL list. Entries of another vesting denom, with
+   NumBlocks = 0 or TotalAmount = 0 are skipped and stay where they are; a touched entry is written back to its own
+   slot. Afterwards every entry (of any denom) with ClaimedAmount >= TotalAmount is dropped. msg.Denom must be ueden. *)
 Fixpoint cancel_loop (rem : Z) (rev_vs : list ventry) : Z * list ventry :=
   match rev_vs with
   | [] => (rem, [])
   | v :: r =>
-      if (v_num v =? 0) || (v_total v =? 0) then
+      if negb (is0 v) || (v_num v =? 0) || (v_total v =? 0) then
         let '(rem', r') := cancel_loop rem r in (rem', v :: r')
       else
         let c := Z.min rem (v_total v - v_claimed v) in
         let '(rem', r') := cancel_loop (rem - c) r in
-        (rem', mkV (v_total v - c) (v_claimed v) (v_start v) (v_num v) :: r')
+        (rem', mkV (v_total v - c) (v_claimed v) (v_start v) (v_num v) (v_den v) :: r')
   end.
 
-Definition cancel (amt : Z) (a : acct) : res acct :=
+Definition cancel_keep (v : ventry) : bool := negb (v_total v <=? v_claimed v).
+
+Definition cancel (d : Z) (amt : Z) (a : acct) : res acct :=
+  guard (d =? 0) E_denom (
   guard (0 <? amt) E_amount (
   let '(rem, rvs) := cancel_loop amt (rev (a_vs a)) in
-  let vs' := filter (fun v => negb (v_total v <=? v_claimed v)) (rev rvs) in
+  let vs' := filter cancel_keep (rev rvs) in
   guard (rem =? 0) E_insufficient_vesting (
-  Ok (mkA (a_eden a + amt) (a_elys a) vs' (g_in a) (g_released a) (g_returned a + amt)))).
+  Ok (mkA (a_eden a + amt) (a_elys a) (a_usdc a) vs' (g_in a) (g_released a) (g_returned a + amt)
+          (g_in1 a) (g_released1 a) (g_usdc0 a))))).
 
 (* VestNow: burns amt claimable Eden, pays amt / factor ELYS *)
 Definition vest_now (amt : Z) (p : params) (a : acct) : res acct :=
@@ -125,21 +173,27 @@ Definition vest_now (amt : Z) (p : params) (a : acct) : res acct :=
   guard (p_now p) E_disabled (
   guard (amt <=? a_eden a) E_claimed (
   guard (negb (p_factor p =? 0)) E_amount (
-  Ok (mkA (a_eden a - amt) (a_elys a + Z.quot amt (p_factor p)) (a_vs a)
-          (g_in a) (g_released a) (g_returned a)))))).
+  Ok (mkA (a_eden a - amt) (a_elys a + Z.quot amt (p_factor p)) (a_usdc a) (a_vs a)
+          (g_in a) (g_released a) (g_returned a) (g_in1 a) (g_released1 a) (g_usdc0 a)))))).
 
 (* MsgUpdateVestingInfo: VestingInfo.Validate accepts NumBlocks >= 0, NumMaxVestings >= 0,
    VestNowFactor > 0 *)
 Definition gov_update (n mx f : Z) (p : params) : res params :=
   guard ((0 <=? n) && (0 <=? mx) && (0 <? f)) E_params (Ok (mkP n mx f (p_now p))).
 
+(* the same message with BaseDenom = VestingDenom = the liquid denom: appends the second VestingInfo or updates it *)
+Definition gov_update_l (n mx f : Z) : res (option linfo) :=
+  guard ((0 <=? n) && (0 <=? mx) && (0 <? f)) E_params (Ok (Some (mkL n mx))).
+
 Inductive op :=
 | OVest (i : nat) (h amt : Z)
 | OClaim (i : nat) (h : Z)
-| OCancel (i : nat) (amt : Z)
+| OCancel (i : nat) (d : Z) (amt : Z)     (* d: msg.Denom, 0 = ueden *)
 | OVestNow (i : nat) (amt : Z)
 | OGov (n mx f : Z)
-| OEnableNow (b : bool).
+| OEnableNow (b : bool)
+| OVestLiquid (i : nat) (h amt : Z)
+| OGovL (n mx f : Z).
 
 Definition on_acct (s : state) (i : nat) (f : acct -> res acct) : res state :=
   if Nat.ltb i (length (s_accts s)) then
@@ -149,11 +203,19 @@ Definition on_acct (s : state) (i : nat) (f : acct -> res acct) : res state :=
 Definition step_gen (clamp : bool) (s : state) (o : op) : res state :=
   match o with
   | OVest i h amt => on_acct s i (vest h amt (s_p s))
-  | OClaim i h => on_acct s i (claim_gen clamp h)
-  | OCancel i amt => on_acct s i (cancel amt)
+  | OClaim i h =>
+      do s' <- on_acct s i (claim_gen clamp h);
+      (* SendCoinsFromModuleToAccount: the liquid part comes out of the module's custody *)
+      let paid := a_usdc (get_acct s' i) - a_usdc (get_acct s i) in
+      guard (paid <=? s_mod s) E_funds (Ok (set_mod s' (s_mod s - paid)))
+  | OCancel i d amt => on_acct s i (cancel d amt)
   | OVestNow i amt => on_acct s i (vest_now amt (s_p s))
-  | OGov n mx f => do p <- gov_update n mx f (s_p s); Ok (mkS p (s_accts s))
-  | OEnableNow b => Ok (mkS (mkP (p_num (s_p s)) (p_max (s_p s)) (p_factor (s_p s)) b) (s_accts s))
+  | OGov n mx f => do p <- gov_update n mx f (s_p s); Ok (mkS p (s_l s) (s_mod s) (s_accts s))
+  | OEnableNow b => Ok (mkS (mkP (p_num (s_p s)) (p_max (s_p s)) (p_factor (s_p s)) b) (s_l s) (s_mod s) (s_accts s))
+  | OVestLiquid i h amt =>
+      do s' <- on_acct s i (vest_liquid h amt (s_l s));
+      Ok (set_mod s' (s_mod s + amt))
+  | OGovL n mx f => do l <- gov_update_l n mx f; Ok (mkS (s_p s) l (s_mod s) (s_accts s))
   end.
 
 Definition step := step_gen true.
@@ -164,9 +226,14 @@ Definition exec (s : state) (o : op) : state := run_tx (fun s => step s o) s.
 Definition run (s : state) (ops : list op) : state := fold_left exec ops s.
 Definition exec_prefix (s : state) (o : op) : state := run_tx (fun s => step_prefix s o) s.
 
-Definition outstanding (a : acct) : Z := zsum (map (fun v => v_total v - v_claimed v) (a_vs a)).
+(* not yet released, per vesting denom: [true] = the ELYS schedules, [false] = the schedules of the liquid denom *)
+Definition out_d (b : bool) (vs : list ventry) : Z :=
+  zsum (map (fun v => if Bool.eqb (is0 v) b then v_total v - v_claimed v else 0) vs).
+Definition outstanding (a : acct) : Z := out_d true (a_vs a).
+Definition outstanding1 (a : acct) : Z := out_d false (a_vs a).
 
-(* initial states used by the harness: every account has some claimable Eden and no vesting *)
-Definition init_acct (eden elys : Z) : acct := mkA eden elys [] 0 0 0.
-Definition init_state (p : params) (l : list (Z * Z)) : state :=
-  mkS p (map (fun '(e, y) => init_acct e y) l).
+(* initial states used by the harness: every account has some claimable Eden, both wallets, and no vesting; the
+   second VestingInfo does not exist yet and the module holds none of the liquid denom *)
+Definition init_acct (eden elys usdc : Z) : acct := mkA eden elys usdc [] 0 0 0 0 0 usdc.
+Definition init_state (p : params) (l : list (Z * Z * Z)) : state :=
+  mkS p None 0 (map (fun '(e, y, u) => init_acct e y u) l).
